@@ -151,6 +151,7 @@ fn main() {
                     }
                 }
             }
+            let dump_packed_names: BTreeSet<String> = names.iter().filter(|(id, _)| dump_packed.contains(id)).map(|(_, n)| n.clone()).collect();
             let mut req: Vec<String> = vec!["ir-begin".into()];
             req.extend(log.raw_ir_lines[0].iter().cloned());
             req.push("ir-end".into());
@@ -201,20 +202,28 @@ fn main() {
                     let any_packed = inv.values().any(|t| t.packed);
                     let mut unknown: Vec<&str> = vec![];
                     for l in &errs {
-                        let region = if l.contains("E0277") && (l.contains("can't compare `__BindgenOpaqueArray") || (l.contains("the trait bound `__BindgenOpaqueArray") && (l.contains(": Ord`") || l.contains(": PartialOrd`")))) && (has("--with-derive-partialord") || has("--with-derive-ord")) {
+                        let helper = |l: &str, pre: &str| l.contains(&format!("{pre}`__BindgenOpaqueArray")) || l.contains(&format!("{pre}`__BindgenUnionField"));
+                        if l.contains("E0425") || l.contains("E0412") || l.contains("E0433") {
+                            // unresolved names: not a derive / impl question (C01's domain); counted, not judged here
+                            *known_hits.entry("(unresolved-name errors, judged by C01)".to_owned()).or_default() += 1;
+                            continue;
+                        }
+                        let region = if l.contains("E0277") && (helper(l, "can't compare ") || (helper(l, "the trait bound ") && (l.contains(": Ord`") || l.contains(": PartialOrd`")))) && (has("--with-derive-partialord") || has("--with-derive-ord")) {
                             Some("opaque_array_wrapper_no_partialord")
                         } else if l.contains("E0793") && packed_manual {
                             Some("packed_manual_impl_takes_reference")
                         } else if l.contains("E0277") && l.contains("doesn't implement `Debug`") && has("--impl-debug") && has("--no-debug") {
                             Some("impl_debug_member_without_debug")
+                        } else if (l.contains("E0204") || (l.contains("E0277") && (l.contains(": Clone`") || l.contains(": Copy`")))) && text.contains("T arr[") {
+                            Some("type_param_array_not_through_arrays")
                         } else if l.contains("E0588") && any_packed {
                             Some("packed_contains_aligned")
                         } else if l.contains("E0133") && l.contains("__BindgenUnionField") {
                             Some("wrapper_union_bitfield_accessor_unsafe")
                         } else if (l.contains("E0277") || l.contains("E0369")) && {
                             // the type the error is about: `X`, `[X; N]`
-                            let named: Vec<String> = l.split('`').skip(1).step_by(2).map(|t| t.trim_start_matches('[').split(|c: char| !(c.is_alphanumeric() || c == '_')).next().unwrap_or("").to_owned()).collect();
-                            named.iter().any(|x| inv.get(x).map_or(false, |t| t.packed && !t.derives.contains("Copy")))
+                            let named: Vec<String> = l.split('`').skip(1).step_by(2).flat_map(|t| t.split(|c: char| !(c.is_alphanumeric() || c == '_')).map(|x| x.to_owned()).collect::<Vec<_>>()).filter(|x| !x.is_empty()).collect();
+                            named.iter().any(|x| inv.get(x).map_or(false, |t| (t.packed || dump_packed_names.contains(x)) && !t.derives.contains("Copy")))
                         } {
                             Some("packed_noncopy_member")
                         } else if l.contains("E0277") && inconsistent && !l.contains("__Bindgen") && (l.contains("can't compare") || l.contains("is not satisfied")) {
